@@ -80,11 +80,11 @@ def dialect_cell(stream, abstract, src):
 
 def run(tier, seed):
     ctx = core.Ctx("C17", tier, seed, LEVEL)
-    srcs = streams.exploration_sources(ctx, tier, seed, caps={"arms": 40000, "c15": 20000}, which=("arms", "c15", "c04", "repo"))
+    srcs = streams.exploration_sources(ctx, tier, seed, caps={"arms": 20000, "c15": 8000}, which=("arms", "c15", "c04", "repo"))
     from checks import c15, c04
     for c in streams.tlc_cases(ctx, "MC_C04", "MC_C04_forms", 4000 if tier == "quick" else None, seed):      # qualified / generic counterpart and error types
         srcs.append(("c04forms", c, c04.concretize(c, "struct")))
-    for c in streams.tlc_cases(ctx, "MC_C15", "MC_C06_q", 15000 if tier == "quick" else None, seed):
+    for c in streams.tlc_cases(ctx, "MC_C15", "MC_C06_q", 8000 if tier == "quick" else None, seed):
         srcs.append(("c06", c["in"], c15.concretize(c["in"], True)))
     inp = [{"id": i, "src": s[2]} for i, s in enumerate(srcs)]
     res = core.expand(inp, "syn1")
